@@ -22,6 +22,10 @@ class C10(scen.WorldProp):
                 "Wheatley.C10.size_change_keeps_place",
                 "Wheatley.C10.size_change_rows",
                 "Wheatley.C10.wait_ends_when_heard",
+                "Wheatley.C10.holder_boundary",
+                "Wheatley.C10.holder_turn",
+                "Wheatley.C10.holder_look_to",
+                "Wheatley.C10.holder_call_other",
                 "Wheatley.C09.keep_going_never_waits"]
     level_text = ("theorems: the main loop's two failure points are unreachable - the place always indexes the row "
                   "being rung (invariant over every message and every turn, including tower-size changes mid-row) and "
